@@ -101,6 +101,79 @@ fn random_case(w: Which, t: &mut Tape, obs: &mut Obs, max_rounds: usize) -> Case
     run_history(w, cfg, &hist, obs)
 }
 
+/// Full stack: real FDL + DpMaster on the SimBus, reference slaves as virtual nodes, faults on the
+/// wire including replies from a wrong source / to a wrong destination / of request type.
+fn fullstack_case(w: Which, t: &mut Tape, obs: &mut Obs) -> CaseResult {
+    use crate::dpfull::*;
+    let mut cfg = gen_dp_cfg(t, &GenDp { allow_late_add: false, allow_incomplete: w == Which::C14, ..gen_opts(w) });
+    cfg.min_tsdr = 11;
+    cfg.watchdog_ms = None;
+    cfg.fixed_slots = None;
+    if cfg.master_addr > 100 {
+        cfg.master_addr = 2;
+    }
+    for p in cfg.pers.iter_mut() {
+        p.add_at_start = true;
+        if p.addr == cfg.master_addr {
+            p.addr = (p.addr + 1) % 126;
+        }
+    }
+    let mut oracles = oracles_for(w, &cfg);
+    let mut rig = FullRig::new(cfg.clone(), t);
+    let n = t.below(60) as usize;
+    let script: Vec<WireAct> = (0..n).map(|_| gen_wire_act(t)).collect();
+    *rig.script.borrow_mut() = script.clone();
+    let np = cfg.pers.len().max(1) as u64;
+    let slot = rig.sim.cfg.slot_us();
+    // nothing to talk to: a few hundred slot times are enough to see that every poll returns
+    if cfg.pers.is_empty() {
+        rig.run(1, 400 * slot, &mut oracles)?;
+        rig.finish(&mut oracles, obs)?;
+        obs.label("peripherals=0");
+        return Ok(());
+    }
+    // phase 1: the scripted faults, with user actions in between
+    let chunks = 1 + n / 6;
+    for _ in 0..chunks {
+        match t.below(4) {
+            0 => rig.write_outputs(t.below(np) as usize, t.u8()),
+            1 => rig.request_diag(t.below(np) as usize, &mut oracles)?,
+            _ => {}
+        }
+        rig.run(6, 1500 * slot, &mut oracles)?;
+    }
+    // let the rest of the script run out
+    let mut guard = 0;
+    while *rig.pos.borrow() < n && guard < 40 {
+        rig.run(4, 600 * slot, &mut oracles)?;
+        guard += 1;
+    }
+    rig.begin_clean(&mut oracles)?;
+    let bound = C07Oracle::bound(&cfg) + 4;
+    let start = rig.cycles;
+    let mut guard = 0;
+    while rig.cycles < start + bound && guard < 3 * bound {
+        rig.run(np.max(1) * 2, 600 * slot, &mut oracles)?;
+        guard += 1;
+    }
+    rig.finish(&mut oracles, obs)?;
+    if std::env::var("PBVERIF_DUMP").is_ok() {
+        eprintln!("{}", crate::ringsim::dump_tail(&rig.sim));
+        eprintln!("fullstack: polls={} requests={} cycles={} sim_time={} us slot={} us cfg={}", rig.sim.nodes[0].polls, rig.requests, rig.cycles, rig.sim.now, slot, rig.sim.cfg.describe());
+    }
+    obs.count("requests", rig.requests);
+    obs.count("inadmissible_telegrams_in_reply_slot", rig.inadmissible);
+    obs.label(&format!("peripherals={}", cfg.pers.len()));
+    if script.iter().any(|a| matches!(a, WireAct::WrongSource | WireAct::WrongDest | WireAct::RequestInstead)) {
+        obs.label("reply-from-wrong-source-or-kind");
+    }
+    if w != Which::C07 && script.iter().any(|a| *a != WireAct::Ok) {
+        obs.nontrivial(fingerprint(&(format!("{:?}", cfg.pers.iter().map(|p| (p.addr, p.in_len, p.out_len)).collect::<Vec<_>>()), cfg.max_retry, format!("{:?}", script))));
+    }
+    obs.sample(|| json!({"ring": rig.sim.cfg.describe(), "peripherals": cfg.pers.iter().map(|p| json!({"addr": p.addr, "in": p.in_len, "out": p.out_len})).collect::<Vec<_>>(), "wire_script": script.iter().map(|a| format!("{:?}", a)).collect::<Vec<_>>()}));
+    Ok(())
+}
+
 /// Bounded exhaustive histories: every sequence of `depth` message-cycle actions over a small
 /// alphabet, for three slave sets.
 const ALPHABET: [Act; 6] = [Act::Ok, Act::RequestLost, Act::ReplyLost, Act::Replaced(Replace::Status(0x03, 0)), Act::PowerCycle, Act::UserDiagInFlight];
@@ -151,6 +224,7 @@ macro_rules! dp_subchecks {
     ($w:expr) => {
         vec![
             SubCheck::tape("histories", "random configurations and fault histories (up to 60 message cycles) followed by a fault-free continuation", |t, obs| random_case($w, t, obs, 60)),
+            SubCheck::tape("fullstack", "full stack on the SimBus: real FDL reply filter and timing, reference slaves as virtual nodes, wire faults incl. wrong source / destination / request-type replies", |t, obs| fullstack_case($w, t, obs)),
             SubCheck::tape("histories_long", "as histories with up to 400 message cycles", |t, obs| random_case($w, t, obs, 400)),
             SubCheck::index("exh_start", "all fault placements over {ok, request lost, reply lost, reply replaced by RS, power cycle, user diag request} of depth 5 from start-up, 3 slave sets", |i, obs| exhaustive_case($w, i, 5, 0, obs)),
             SubCheck::index("exh_running", "the same alphabet, depth 5, applied after the peripherals reached data exchange (fault-free prefix of 30 cycles)", |i, obs| exhaustive_case($w, i, 5, 30, obs)),
@@ -164,12 +238,14 @@ fn dp_plan(tier: Tier) -> Vec<Step> {
     match tier {
         Tier::Quick => vec![
             Step::Pbt { kind: "histories", cases: 40_000, max_len: 420 },
+            Step::Pbt { kind: "fullstack", cases: 1_500, max_len: 200 },
             Step::Enumerate { kind: "exh_start", count: 3 * 6u64.pow(5) },
             Step::Enumerate { kind: "exh_running", count: 3 * 6u64.pow(5) },
         ],
         Tier::Thorough => vec![
             Step::Pbt { kind: "histories", cases: 300_000, max_len: 420 },
             Step::Pbt { kind: "histories_long", cases: 30_000, max_len: 2600 },
+            Step::Pbt { kind: "fullstack", cases: 60_000, max_len: 200 },
             Step::Enumerate { kind: "exh_deep", count: 3 * 6u64.pow(7) },
             Step::Enumerate { kind: "exh_running_deep", count: 3 * 6u64.pow(7) },
         ],
@@ -191,7 +267,7 @@ pub fn c03() -> Property {
         subchecks: dp_subchecks!(Which::C03),
         plan: dp_plan,
         hang_is_violation: true,
-        hang_limit_s: 10,
+        hang_limit_s: 60,
         probes: vec![],
     }
 }
@@ -204,7 +280,7 @@ pub fn c04() -> Property {
         subchecks: dp_subchecks!(Which::C04),
         plan: dp_plan,
         hang_is_violation: true,
-        hang_limit_s: 10,
+        hang_limit_s: 60,
         probes: vec![],
     }
 }
@@ -217,7 +293,7 @@ pub fn c07() -> Property {
         subchecks: dp_subchecks!(Which::C07),
         plan: dp_plan,
         hang_is_violation: true,
-        hang_limit_s: 10,
+        hang_limit_s: 60,
         probes: vec![],
     }
 }
@@ -230,7 +306,7 @@ pub fn c08() -> Property {
         subchecks: dp_subchecks!(Which::C08),
         plan: dp_plan,
         hang_is_violation: true,
-        hang_limit_s: 10,
+        hang_limit_s: 60,
         probes: vec![],
     }
 }
@@ -243,7 +319,7 @@ pub fn c14() -> Property {
         subchecks: dp_subchecks!(Which::C14),
         plan: dp_plan,
         hang_is_violation: true,
-        hang_limit_s: 10,
+        hang_limit_s: 60,
         probes: vec![],
     }
 }
